@@ -396,7 +396,12 @@ impl<T: HCfg> World<T> {
             line.insert("srx".into(), Value::Array(srx));
         }
         // distinct senders of all consumed packets
-        let mut rxf: Vec<u64> = rx.iter().filter_map(|m| m[0].as_u64()).collect();
+        // (forged packets with a foreign magic number or address are no sign of life of the peer)
+        let mut rxf: Vec<u64> = rx
+            .iter()
+            .filter(|m| !(m[2][0] == "Forged" && m[2][1] == false))
+            .filter_map(|m| m[0].as_u64())
+            .collect();
         rxf.sort_unstable();
         rxf.dedup();
         line.insert("rxf".into(), json!(rxf));
